@@ -162,8 +162,13 @@ func runC02c(c c02cCase, o *vfutil.Obs) *vfutil.Failure {
 			}
 			hw := p.log.HighWatermark()
 			lg, err := c02ReadLog(p)
+			for try := 0; err != nil && try < 5; try++ {
+				// the replica may be truncating or rolling right now
+				time.Sleep(20 * time.Millisecond)
+				lg, err = c02ReadLog(p)
+			}
 			if err != nil {
-				return vfutil.Failf("C02/log-unreadable", "%s, history %v: replica %s: %v", step, hist, id, err)
+				return vfutil.Failf("harness/log-unreadable", "%s, history %v: replica %s: %v", step, hist, id, err)
 			}
 			logs[id], hws[id] = lg, hw
 			for i := 1; i < len(lg); i++ {
